@@ -16,9 +16,11 @@ import (
 	"net/url"
 	"os"
 	"path/filepath"
+	goruntime "runtime"
 	"sort"
 	"bufio"
 	"strings"
+	"sync"
 	"testing/iotest"
 	"time"
 
@@ -76,6 +78,14 @@ type c11In struct {
 	Form    []c11Field     `json:"form,omitempty"`
 	Files   []c11FileField `json:"files,omitempty"`
 	Auth    int            `json:"auth"` // -1: no auth writer; k >= 0: an auth writer calling GetBody k times
+	// other requests of the same shape (other contents, see c11Neighbour) on the SAME Runtime: BuiltBefore of them are built and
+	// sent (their bodies read to the end) before this request is built; BuiltAfter of them are built after this request and
+	// before its body is read (requests in flight together), and read afterwards. What this request sends must not depend on them.
+	BuiltBefore int `json:"built_before,omitempty"`
+	BuiltAfter  int `json:"built_after,omitempty"`
+	// the case runs on one processor (GOMAXPROCS 1): every goroutine the requests start shares it, so anything recycled per
+	// processor (sync.Pool) goes straight from one request to the next
+	OneP bool `json:"one_p,omitempty"`
 }
 
 type c11Part struct {
@@ -138,6 +148,7 @@ func (c11) Rule() string {
 		"file names with quotes, backslashes, directories; file contents of lengths 0,1,511,512,513,4096,70000 and random, uploads and streamed reader payloads of 128 KiB to 8 MiB (at, just below and just above 1 MiB and the other powers of two; in Reads of 1000 bytes to 1 MiB; with the auth writer absent, not asking, asking once or twice; such contents are described by length and seed in the input and stand in the Coq terms as fingerprints: length and SHA-256), text and binary signatures, delivered whole or in short reads, declared or sniffed type; " +
 		"auth writer absent or calling GetBody 0,1,2,3 times; value payloads of 18 dynamic types (string, []byte, named/pointer variants, map, struct, slice, numbers, bool, typed nil pointer, json.RawMessage, marshalers) under every producer; " +
 		"reader payloads of 20 dynamic types, fresh or handed over after a prefix was read or seeked past; uploads made from an own type, through runtime.NamedReader (over plain, named, renamed readers, *os.File) or an *os.File itself. The outgoing request is read back with mime/multipart and url.ParseQuery. " +
+		"A third of the multipart / form / value cases are built with 1-4 other requests of the same shape and other contents in flight on the same Runtime (built after it, before its body is read), a sixth after 1-2 others were sent, half of these on one processor (GOMAXPROCS 1). " +
 		"Non-trivial: a request that was built without error and carries a body."
 }
 
@@ -235,6 +246,15 @@ func c11Expand(in c11In) c11In {
 
 // c11Norm drops the fields that have no meaning for the chosen kinds, so that the category of a case tells the truth
 func c11Norm(in c11In) c11In {
+	if in.BuiltBefore < 0 || in.BuiltBefore > 8 {
+		in.BuiltBefore = 0
+	}
+	if in.BuiltAfter < 0 || in.BuiltAfter > 8 {
+		in.BuiltAfter = 0
+	}
+	if in.BuiltBefore == 0 && in.BuiltAfter == 0 {
+		in.OneP = false
+	}
 	if in.Payload != "value" || !c11In1(in.VType, c11ValueTypes) {
 		in.VType = ""
 	}
@@ -584,6 +604,46 @@ func c11Producers() map[string]runtime.Producer {
 }
 
 // c11MakeFile builds the upload the way f.Src says; osPath is the path of the *os.File behind it, if any
+// c11Neighbour derives the k-th other request from a case: the same media type, form field names, file field names and
+// declared types, but other contents (a text that says whose it is, at least 600 bytes so that it fills every sniffing window),
+// uploads from the harness's own type in two Reads, a value payload of the same dynamic type, no streamed payload.
+func c11Neighbour(in c11In, k int) c11In {
+	other := func(n int, what string) Bs {
+		if n < 600 {
+			n = 600
+		}
+		unit := fmt.Sprintf("<neighbour %d %s>", k, what)
+		return Bs(strings.Repeat(unit, n/len(unit)+1)[:n])
+	}
+	out := c11In{Kind: in.Kind, Method: in.Method, Media: in.Media, Preset: in.Preset, Payload: "nil", Auth: in.Auth}
+	if out.Auth > 1 {
+		out.Auth = 1
+	}
+	if in.Payload == "value" {
+		out.Payload, out.VType, out.Content = "value", in.VType, other(len(in.Content), "payload")
+	}
+	for _, f := range in.Form {
+		nf := c11Field{Name: f.Name}
+		for j := range f.Values {
+			nf.Values = append(nf.Values, Bs(fmt.Sprintf("neighbour-%d-value-%d", k, j)))
+		}
+		out.Form = append(out.Form, nf)
+	}
+	for _, ff := range in.Files {
+		nff := c11FileField{Name: ff.Name}
+		for j, f := range ff.Files {
+			n := len(c11Content(f))
+			if n > 4096 {
+				n = 4096
+			}
+			c := other(n, fmt.Sprintf("file %s/%d", string(ff.Name), j))
+			nff.Files = append(nff.Files, c11File{Name: Bs(fmt.Sprintf("neighbour%d-%d.bin", k, j)), Chunks: []Bs{c[:100], c[100:]}, Declared: f.Declared})
+		}
+		out.Files = append(out.Files, nff)
+	}
+	return out
+}
+
 func c11MakeFile(f c11File, tmpdir func() string) (file runtime.NamedReadCloser, osPath string) {
 	src := &c11Src{name: string(f.Name)}
 	for _, c := range f.Chunks {
@@ -638,6 +698,10 @@ func (c11) Run(inAny any) any {
 			obs.Base = Bs(filepath.Base(string(in.S)))
 		})
 		return obs
+	}
+	if in.OneP {
+		old := goruntime.GOMAXPROCS(1)
+		defer goruntime.GOMAXPROCS(old)
 	}
 	producers := c11Producers()
 	_, obs.Registered = producers[string(in.Media)]
@@ -720,7 +784,8 @@ func (c11) Run(inAny any) any {
 		valuePayload = c11MakeValue(in.VType, []byte(in.Content))
 		obs.ValueGo = fmt.Sprintf("%T", valuePayload)
 	}
-	writer := runtime.ClientRequestWriterFunc(func(req runtime.ClientRequest, _ strfmt.Registry) error {
+	mkWriter := func(in c11In, valuePayload, streamPayload any, record bool) runtime.ClientRequestWriter {
+	return runtime.ClientRequestWriterFunc(func(req runtime.ClientRequest, _ strfmt.Registry) error {
 		if in.Preset != nil {
 			_ = req.SetHeaderParam("Content-Type", string(*in.Preset))
 		}
@@ -731,7 +796,7 @@ func (c11) Run(inAny any) any {
 			var fs []runtime.NamedReadCloser
 			for j, f := range ff.Files {
 				file, osPath := c11MakeFile(f, tmpdir)
-				if osPath != "" {
+				if osPath != "" && record {
 					if obs.OSNames == nil {
 						obs.OSNames = map[string]string{}
 					}
@@ -749,6 +814,65 @@ func (c11) Run(inAny any) any {
 		}
 		return nil
 	})
+	}
+	writer := mkWriter(in, valuePayload, streamPayload, true)
+	// the other requests built on the same Runtime (c11Neighbour): built and, when asked, read to the end
+	neighbour := func(k int) *http.Request {
+		nin := c11Neighbour(in, k)
+		var nv any
+		if nin.Payload == "value" {
+			nv = c11MakeValue(nin.VType, []byte(nin.Content))
+		}
+		var nauth runtime.ClientAuthInfoWriter
+		if nin.Auth >= 0 {
+			nauth = runtime.ClientAuthInfoWriterFunc(func(req runtime.ClientRequest, _ strfmt.Registry) error {
+				for j := 0; j < nin.Auth; j++ {
+					_ = req.GetBody()
+				}
+				return nil
+			})
+		}
+		nop := &runtime.ClientOperation{
+			ID: "neighbour", Method: nin.Method, PathPattern: "/x",
+			ConsumesMediaTypes: []string{string(nin.Media)}, ProducesMediaTypes: []string{"application/json"},
+			Params: mkWriter(nin, nv, nil, false), AuthInfo: nauth,
+		}
+		var nreq *http.Request
+		ndone := make(chan struct{})
+		go func() {
+			defer close(ndone)
+			_, _ = recoverTo(func() { nreq, _ = rt.CreateHttpRequest(nop) })
+		}()
+		select {
+		case <-ndone:
+		case <-time.After(10 * time.Second):
+			return nil
+		}
+		return nreq
+	}
+	drain := func(reqs []*http.Request) {
+		var wg sync.WaitGroup
+		for _, nreq := range reqs {
+			if nreq == nil || nreq.Body == nil {
+				continue
+			}
+			wg.Add(1)
+			go func(b io.ReadCloser) {
+				defer wg.Done()
+				_, _ = io.Copy(io.Discard, b)
+				_ = b.Close()
+			}(nreq.Body)
+		}
+		fin := make(chan struct{})
+		go func() { wg.Wait(); close(fin) }()
+		select {
+		case <-fin:
+		case <-time.After(10 * time.Second):
+		}
+	}
+	for k := 0; k < in.BuiltBefore; k++ {
+		drain([]*http.Request{neighbour(100 + k)})
+	}
 	var auth runtime.ClientAuthInfoWriter
 	if in.Auth >= 0 {
 		auth = runtime.ClientAuthInfoWriterFunc(func(req runtime.ClientRequest, _ strfmt.Registry) error {
@@ -794,6 +918,16 @@ func (c11) Run(inAny any) any {
 			obs.HasMedia, obs.CTMedia, obs.Boundary = true, Bs(mt), Bs(params["boundary"])
 		}
 	}
+	// the requests built while this one waits to be sent
+	var inflight []*http.Request
+	for k := 0; k < in.BuiltAfter; k++ {
+		if k == 0 {
+			time.Sleep(200 * time.Microsecond) // this request's writer goroutine gets to its first write
+		}
+		inflight = append(inflight, neighbour(k))
+		time.Sleep(200 * time.Microsecond)
+	}
+	defer drain(inflight)
 	// read what would be sent
 	obs.SentOK = true
 	if req.Body != nil {
@@ -1158,6 +1292,15 @@ func (c11) Category(inAny any, obsAny any) (string, bool) {
 			kind += "+payload"
 		}
 	}
+	if in.BuiltBefore > 0 {
+		bigTag += "/after-other-requests"
+	}
+	if in.BuiltAfter > 0 {
+		bigTag += "/others-in-flight"
+	}
+	if in.OneP {
+		bigTag += "/one-processor"
+	}
 	return kind + bigTag + "/" + auth + "/" + outcome, outcome == "ok" && obs.SentLen > 0
 }
 
@@ -1386,7 +1529,29 @@ func (c11) Gen(r *rand.Rand, tier string, i int) any {
 			}
 		}
 	}
+	// requests in flight together / one after the other on the same Runtime (not next to a big content)
+	if !c11IsBig(in) && !c11Big70k(in) && (len(in.Files) > 0 || in.Payload == "value" || len(in.Form) > 0) {
+		if r.Intn(3) == 0 {
+			in.BuiltAfter = 1 + r.Intn(4)
+		}
+		if r.Intn(6) == 0 {
+			in.BuiltBefore = 1 + r.Intn(2)
+		}
+		in.OneP = r.Intn(2) == 0
+	}
 	return c11Norm(in)
+}
+
+// c11Big70k: the case has an upload of tens of kilobytes
+func c11Big70k(in c11In) bool {
+	for _, ff := range in.Files {
+		for _, f := range ff.Files {
+			if len(c11Content(f)) > 20000 {
+				return true
+			}
+		}
+	}
+	return false
 }
 
 // c11BigSizes: lengths around the powers of two a buffer limit is likely to be (128 KiB, 256 KiB, 1 MiB, 4 MiB, 8 MiB) and between
@@ -1468,6 +1633,16 @@ func (c11) Enumerate(tier string) []any {
 					}
 					out = append(out, c11In{Kind: "body", Method: "POST", Media: "multipart/form-data", Payload: "nil", Auth: auth,
 						Files: []c11FileField{{Name: "file", Files: []c11File{{Name: Bs(fmt.Sprintf("dir/f%d.bin", n)), Chunks: chunks}}}}})
+					if n != 70000 && ch == 0 && auth == -1 {
+						// the same upload with three other requests built before its body is read, and after two others were sent
+						two := []c11File{{Name: Bs(fmt.Sprintf("dir/f%d.bin", n)), Chunks: chunks}, {Name: "second.txt", Chunks: []Bs{"plain text of the second file"}}}
+						out = append(out, c11In{Kind: "body", Method: "POST", Media: "multipart/form-data", Payload: "nil", Auth: auth, BuiltAfter: 3,
+							Files: []c11FileField{{Name: "file", Files: two}}})
+						out = append(out, c11In{Kind: "body", Method: "POST", Media: "multipart/form-data", Payload: "nil", Auth: auth, BuiltAfter: 2, OneP: true,
+							Files: []c11FileField{{Name: "file", Files: two}}})
+						out = append(out, c11In{Kind: "body", Method: "POST", Media: "multipart/form-data", Payload: "nil", Auth: auth, BuiltBefore: 2,
+							Files: []c11FileField{{Name: "file", Files: two}}})
+					}
 				}
 			}
 		}
